@@ -88,7 +88,10 @@ pub fn check_unit(rep: &mut Rep, e_c: i128, s: TimeScale) {
         let cu0 = unit_ns(u);
         // ... and from readings within one unit of the 64-bit thresholds of the nanosecond count
         let t = [(1i128 << 63) - 1, -(1i128 << 63), 1i128 << 64, 1i128 << 53][(e_c.rem_euclid(4)) as usize];
-        for e_c in [e_c, k - cu0, k + cu0, t - cu0 / 2 - 1, t - 1, t + 1, t - cu0, t + cu0 / 3] {
+        // ... and from the first and last centuries of the representable range: a step that borrows from century -32767 into
+        // -32768 (or carries from 32766 into 32767) and one that lands next to the bound itself - the result is representable,
+        // "no bound is hit", whatever the century fields do on the way (the operations whose exact result is not are not judged)
+        for e_c in [e_c, k - cu0, k + cu0, t - cu0 / 2 - 1, t - 1, t + 1, t - cu0, t + cu0 / 3, MIN_NS + NPC + cu0 / 2, MAX_NS - NPC - cu0 / 2, MIN_NS + cu0 + 1 + e_c.rem_euclid(7), MAX_NS - cu0 - 1 - e_c.rem_euclid(7)] {
         if !rep.tick() {
             continue;
         }
@@ -104,6 +107,9 @@ pub fn check_unit(rep: &mut Rep, e_c: i128, s: TimeScale) {
             Err(p) => rep.fail(&format!("unit/panic/{}", p.class()), None, || format!("Epoch({e_c},{:?}) +/- {:?} panicked {}", s, u, p.msg)),
             Ok((a, b, c, f)) => {
                 for (name, g, w) in [("add_unit", a, e_c + cu), ("sub_unit", b, e_c - cu), ("add_assign_unit", c, e_c + cu), ("sub_assign_unit", f, e_c - cu)] {
+                    if !(MIN_NS..=MAX_NS).contains(&w) {
+                        continue;
+                    }
                     if g.time_scale != s || count_d(g.duration) != w || !is_canonical(g.duration.to_parts()) {
                         rep.fail(&format!("{name}/value"), None, || format!("Epoch({e_c},{:?}) {name} {:?} = ({}, {:?}) want {} in canonical form", s, u, fmt_parts(g.duration.to_parts()), g.time_scale, w));
                     }
